@@ -68,7 +68,8 @@ GLYCAN = {
 
 # plain mass shifts (text -> value); texts are stored without explicit plus
 SHIFTS = {'15.995': 15.995, '-18.0106': -18.0106, '1': 1.0, '-2': -2.0, '1.5': 1.5, '100': 100.0, '0.5': 0.5,
-          '79.966331': 79.966331, '1.0': 1.0, '42.010565': 42.010565}
+          '79.966331': 79.966331, '1.0': 1.0, '42.010565': 42.010565,
+          '0.00005': 0.00005, '-0.00002': -0.00002, '5e-05': 5e-05}   # str() of these floats uses exponent notation
 PREFIXED_SHIFTS = {'U:+15.995': 15.995, 'M:-18.0106': -18.0106, 'Obs:+15.99': 15.99, 'Obs:15.99': 15.99,
                    'UNIMOD:+1.5': 1.5, 'X:+100.5': 100.5, 'MOD:+14.01565': 14.01565, 'obs:-17.0265': -17.0265,
                    'R:+3.25': 3.25, 'G:+162.0528': 162.0528}
